@@ -1288,7 +1288,7 @@ class Machine:
                     return self.predicate(('regex', sj, rx), g, memo, BOOL(True), BOOL(False))
                 return self.predicate(('regex', sj, rx), g, memo, ENUM(OPT, 1, [TOP({sj})]), ENUM(OPT, 0, []))
         # ---- Option combinators with a closure: same meaning as the match they replace ----
-        mo = re.search(r'option::Option::<.{0,80}?>::(and_then|map|unwrap_or_else|or_else|unwrap_or)(::<|$)', callee)
+        mo = re.search(r'option::Option::<.{0,80}?>::(and_then|map|unwrap_or_else|or_else|unwrap_or|or)(::<|$)', callee)
         if mo and a0[0] == 'enum' and a0[1].endswith('Option') and len(argv) >= 2:
             kind = mo.group(1)
             is_some = a0[2] == 1
@@ -1306,6 +1306,8 @@ class Machine:
                 return None
             if kind == 'unwrap_or':
                 return [((payload if is_some else argv[1]), g, memo)]
+            if kind == 'or':
+                return [((a0 if is_some else argv[1]), g, memo)]
             if kind in ('and_then', 'map'):
                 if not is_some:
                     return [(ENUM(OPT, 0, []), g, memo)]
